@@ -23,7 +23,7 @@ use std::time::Duration;
 pub struct C12;
 
 pub const PREFIX: &str = "data";
-const KINDS: u64 = 10;
+const KINDS: u64 = 11;
 fn kind_of(k: u64) -> StoreFault {
     match k % KINDS {
         0 => StoreFault::PutError,
@@ -35,11 +35,12 @@ fn kind_of(k: u64) -> StoreFault {
         6 => StoreFault::RenameError,
         7 => StoreFault::DeleteError,
         9 => StoreFault::GetCorrupt,
+        10 => StoreFault::RenameAmbiguous,
         _ => StoreFault::ListIncomplete,
     }
 }
 fn kinds_for(op: &str) -> Vec<u64> {
-    match op { "put" => vec![0, 1, 2, 3, 4], "get" => vec![5, 9], "rename" => vec![6], "delete" => vec![7], "list" => vec![8], _ => vec![] }
+    match op { "put" => vec![0, 1, 2, 3, 4], "get" => vec![5, 9], "rename" => vec![6, 10], "delete" => vec![7], "list" => vec![8], _ => vec![] }
 }
 
 #[derive(Debug, Clone)]
